@@ -4,11 +4,12 @@
           | `script` (sh /script.sh, standard input = data)
           | `pipe:<pause>:<n1>,<n2>,…` (sh -s, script written into a pipe in chunks of n1, n2, … bytes)
     the script is the concatenation of the units (unit boundaries matter to the harness only).
-  Output: `trace=<item|item…> status=<n> err=<0/1> echo=<hex>` TAB `<spec verdict>`.
+  Output: `trace=<item|item…> status=<n> err=<0/1> echo=<hex> fin=<vars;aliases;options>` TAB `<spec verdict>`.
 -/
 import YashModel.Common.Proto
 import YashModel.Input.Model
 import YashModel.Input.Spec
+import YashModel.Input.ReadSpec
 open YashModel YashModel.Input YashModel.Proto
 
 def decBytes (t : String) : Option (List UInt8) :=
@@ -54,21 +55,39 @@ def runLine (line : String) : String :=
       let nb := feed.startsWith "nbpipe" || feed == "real:nb"
       let r := if fileSrc then runFile script data else if nb then runPipe true script
                else run shared script data
-      let showObs (out : List Out) (status : Nat) (o : Outcome) (echo : List UInt8) : String :=
-        let tr := "|".intercalate (out.reverse.map showOut)
+      -- the state left behind: the variables `read` assigns, the aliases the scripts define, the two
+      -- options they toggle (not available from the real-binary leg)
+      let real := feed == "real:nb" || feed == "real:bl"
+      let showFin (st : State) : String :=
+        if real then "-" else
+        let vs := ["v1", "v2", "v3", "vd"].map fun n => encStr (getVar st.vars n)
+        let as := ["a1", "a2", "a3", "n1", "n2", "n3"].map fun n =>
+          match st.aliases.find? (·.1 == n) with
+          | some e => encStr e.2
+          | none => "~"
+        s!"{",".intercalate vs};{",".intercalate as};{if st.verbose then 1 else 0}{if st.portable then 1 else 0}"
+      let showObs (st : State) (o : Outcome) : String :=
+        let tr := "|".intercalate (st.out.reverse.map showOut)
         match o with
         | .outOfFuel => s!"FUEL trace={tr}"
-        | o => s!"trace={tr} status={status} err={if o == .syntaxError then 1 else 0} echo={encBytes echo}"
-      let obs := showObs r.1.out r.1.status r.2.1 r.1.echo
+        | o => s!"trace={tr} status={st.status} err={if o == .syntaxError then 1 else 0} echo={encBytes st.echo} fin={showFin st}"
+      let obs := showObs r.1 r.2.1
       let prefixes := (List.range units.length).filterMap fun k =>
         if k == 0 then none else some (units.take k).flatten
       -- Spec column: a violated clause of the Spec on the model's own run, else the prediction of
       -- the line-by-line reference reader
-      let verdict := check fileSrc shared script data prefixes chunks r
+      let verdict0 := check fileSrc shared script data prefixes chunks r
+      -- `read` took exactly its logical line: what follows it is what the next iteration finds
+      let verdict := if verdict0 != "ok" then verdict0
+                     else if shared then
+                       (match checkReads r.2.2 with
+                        | some w => "FAIL:" ++ w
+                        | none => "ok")
+                     else "ok"
       let sp := if fileSrc then specRunFile script data else if nb then specRunPipe true script
                 else specRun shared script data
       obs ++ "\t" ++ (if verdict != "ok" then verdict
-                      else "=" ++ showObs sp.1.out sp.1.status sp.2 sp.1.echo)
+                      else "=" ++ showObs sp.1 sp.2)
     | _, _ => "bad-case\t-"
   | _ => "bad-case\t-"
 
